@@ -161,25 +161,25 @@ class _MatchContract(Contract):
 from . import _patch  # noqa: E402,F401
 
 
-@contract("genjax.core:AllSel.match", ["C16"])
+@contract("genjax.core:AllSel.match", ["C16", "C04", "C09"])
 class AllSelMatch(_MatchContract):
     def make(self):
         return core.AllSel()
 
 
-@contract("genjax.core:NoneSel.match", ["C16"])
+@contract("genjax.core:NoneSel.match", ["C16", "C04", "C09"])
 class NoneSelMatch(_MatchContract):
     def make(self):
         return core.NoneSel()
 
 
-@contract("genjax.core:StrSel.match", ["C16"])
+@contract("genjax.core:StrSel.match", ["C16", "C04", "C09"])
 class StrSelMatch(_MatchContract):
     def make(self):
         return core.StrSel(core.Const(atom_sym("s")))
 
 
-@contract("genjax.core:TupleSel.match", ["C16"])
+@contract("genjax.core:TupleSel.match", ["C16", "C04", "C09"])
 class TupleSelMatch(_MatchContract):
     """t is a symbolic tuple of atoms of *any* length (z3 sequence)."""
 
@@ -187,7 +187,7 @@ class TupleSelMatch(_MatchContract):
         return core.TupleSel(core.Const(SymSeq.fresh("t")))
 
 
-@contract("genjax.core:DictSel.match", ["C16"])
+@contract("genjax.core:DictSel.match", ["C16", "C04", "C09"])
 class DictSelMatch(_MatchContract):
     """d maps an arbitrary set of atoms to abstract sub-selections."""
 
@@ -198,25 +198,25 @@ class DictSelMatch(_MatchContract):
         return core.DictSel(d)
 
 
-@contract("genjax.core:ComplSel.match", ["C16"])
+@contract("genjax.core:ComplSel.match", ["C16", "C04", "C09"])
 class ComplSelMatch(_MatchContract):
     def make(self):
         return core.ComplSel(AbsSel.fresh("s"))
 
 
-@contract("genjax.core:InSel.match", ["C16"])
+@contract("genjax.core:InSel.match", ["C16", "C04", "C09"])
 class InSelMatch(_MatchContract):
     def make(self):
         return core.InSel(AbsSel.fresh("s1"), AbsSel.fresh("s2"))
 
 
-@contract("genjax.core:OrSel.match", ["C16"])
+@contract("genjax.core:OrSel.match", ["C16", "C04", "C09"])
 class OrSelMatch(_MatchContract):
     def make(self):
         return core.OrSel(AbsSel.fresh("s1"), AbsSel.fresh("s2"))
 
 
-@contract("genjax.core:Selection.match", ["C16", "C04"])
+@contract("genjax.core:Selection.match", ["C16", "C04", "C09"])
 class SelectionMatch(_MatchContract):
     """wrapper: same denotation as the wrapped object; the remainder is always a `Selection`."""
 
@@ -245,7 +245,7 @@ class SelectionMatch(_MatchContract):
             yield "rest_is_Selection", isinstance(path.value[1], core.Selection)
 
 
-@contract("genjax.core:Selection.__contains__", ["C16", "C04"])
+@contract("genjax.core:Selection.__contains__", ["C16", "C04", "C09"])
 class SelectionContains(Contract):
     """`() in s` — the leaf decision used by Distribution.regenerate / filter — is Sel(s, eps)."""
 
@@ -392,7 +392,7 @@ class SelCtor(Contract):
 # algebra lemmas over the contracts (pure SMT; the property's laws for whole paths)
 
 
-@contract("lemma:selection_algebra", ["C16"], kind="lemma")
+@contract("lemma:selection_algebra", ["C16", "C04", "C09"], kind="lemma")
 class AlgebraLemma(Contract):
     """From rest_den + leaf_hit by induction on the path: the operational decision taken by
     regenerate (thread the remainder along p, then `() in rest`) equals Sel(s, p).  Inductive step:
@@ -420,3 +420,8 @@ class AlgebraLemma(Contract):
         yield "step", z3.Implies(z3.And(*hyp), Dec_s(cons(a, p)) == S(cons(a, p)))
         hit0 = z3.Bool("hit0")
         yield "base", z3.Implies(z3.And(hit0 == S(EPS), Dec_s(EPS) == hit0), Dec_s(EPS) == S(EPS))
+
+from vt.contract import canary as _canary  # noqa: E402
+
+_canary(OrSelMatch, "atom", "rest_den")
+_canary(TupleSelMatch, "atom", "rest_den")
